@@ -69,7 +69,19 @@ def _get_calls(stmts, nsec, env, parent_conv=None, out=None):
        nsec = number of leading 'section' arguments (1 for process sections, 0 for read_config)"""
     out = [] if out is None else out
 
-    def scan_expr(e, conv):
+    def has_get(e):
+        return any(isinstance(n, ast.Call) and isinstance(n.func, ast.Name) and n.func.id == 'get' for n in ast.walk(e))
+
+    def scan_expr(e, conv, fallback=None):
+        if isinstance(e, (ast.BoolOp, ast.IfExp)) and has_get(e):
+            # `get(...) or '<text>'`: an empty (falsy) looked-up value is replaced by <text> before it is converted.
+            # Every other conditional form around a lookup is a statement the model does not know.
+            if isinstance(e, ast.BoolOp) and isinstance(e.op, ast.Or) and len(e.values) == 2 and isinstance(e.values[0], ast.Call) \
+                    and isinstance(e.values[0].func, ast.Name) and e.values[0].func.id == 'get' \
+                    and isinstance(e.values[1], ast.Constant) and isinstance(e.values[1].value, str):
+                scan_expr(e.values[0], conv, e.values[1].value)
+                return
+            raise ValueError('conditional expression around an option lookup not understood: ' + ast.unparse(e)[:100])
         if isinstance(e, ast.Call):
             f = e.func
             if isinstance(f, ast.Name) and f.id == 'get':
@@ -86,7 +98,7 @@ def _get_calls(stmts, nsec, env, parent_conv=None, out=None):
                         do_expand = bool(k.value.value)
                     if k.arg == 'expansions' and ast.unparse(k.value) == 'expansions':
                         passes = True      # the caller's own dictionary is handed to the lookup
-                out.append((name, conv or '', _dflt(d, env), do_expand, passes))
+                out.append((name, conv or '', _dflt(d, env), do_expand, passes, fallback))
                 return
             # converter(get(...)) : a call with exactly one positional argument which is the get call
             c = None
@@ -158,6 +170,89 @@ def opt_rows():
     for r in _get_calls(f.body, 0, {}):
         rows.append(('supervisord',) + r[:4])
     return rows
+
+
+def fallback_rows():
+    """[(scope, option, text)]: lookups written `get(...) or '<text>'` -- a present-but-empty value is replaced by <text>
+    before the converter sees it.  Only understood for the once-per-section lookups (Model/Config.lean getField); in the
+    numprocs loop it is an extraction error."""
+    tree = _tree(OPT)
+    rows = []
+    f = _find(tree, 'ServerOptions._processes_from_section')
+    loop_opts = {o for o, _ in loop_placement()['gets']} | {'environment'}
+    for r in _get_calls(f.body, 1, {}):
+        if r[5] is not None:
+            if r[0] in loop_opts:
+                raise ValueError("get(section, %r, ...) or %r inside the numprocs loop: not modelled" % (r[0], r[5]))
+            rows.append(('program', r[0], r[5]))
+    f = _find(tree, 'ServerOptions.process_groups_from_parser')
+    for st in f.body:
+        if isinstance(st, ast.For):
+            sc = _loop_scope(st)
+            for r in _get_calls(st.body, 1, {}):
+                if r[5] is not None:
+                    rows.append((sc, r[0], r[5]))
+    f = _find(tree, 'ServerOptions.read_config')
+    for r in _get_calls(f.body, 0, {}):
+        if r[5] is not None:
+            rows.append(('supervisord', r[0], r[5]))
+    return rows
+
+
+# ---- read_config: which dictionary the parser expands with, and when the sections are parsed -----------------------
+_ENVIRON_COPIES = ('self.environ_expansions.copy()', 'dict(self.environ_expansions)', 'copy.copy(self.environ_expansions)',
+                   'dict(**self.environ_expansions)', 'dict(self.environ_expansions.items())', 'copy.deepcopy(self.environ_expansions)')
+
+
+def read_config_environ():
+    """-> dict(shares=bool, groups_after=bool, servers_after=bool)
+    shares: `parser.expansions = self.environ_expansions` binds the parser to the options' own dictionary (so what
+            read_config later adds to self.environ_expansions is seen by parser.saneget); a copy does not.
+    groups_after / servers_after: `section.process_group_configs = self.process_groups_from_parser(parser)` /
+            `section.server_configs = self.server_configs_from_parser(parser)` stand AFTER the loop
+            `for k, v in section.environment.items(): self.environ_expansions['ENV_%s' % k] = v`
+    (top-level statements of read_config; any other shape is an extraction error: the model does not know it)."""
+    f = _find(_tree(OPT), 'ServerOptions.read_config')
+    binds = [n for n in ast.walk(f) if isinstance(n, ast.Assign) and len(n.targets) == 1
+             and ast.unparse(n.targets[0]) == 'parser.expansions']
+    if len(binds) != 1:
+        raise ValueError('read_config: expected exactly one `parser.expansions = ...`, found %d' % len(binds))
+    src = ast.unparse(binds[0].value)
+    if src == 'self.environ_expansions':
+        shares = True
+    elif src in _ENVIRON_COPIES:
+        shares = False
+    else:
+        raise ValueError('read_config: parser.expansions = %s: not a binding the model knows' % src)
+    for n in ast.walk(f):
+        if isinstance(n, ast.Attribute) and ast.unparse(n) == 'parser.expansions' and isinstance(n.ctx, ast.Store) and n is not binds[0].targets[0]:
+            raise ValueError('read_config: parser.expansions is bound more than once')
+    merge = groups = servers = None
+    for i, st in enumerate(f.body):
+        if isinstance(st, ast.For) and ast.unparse(st.iter) == 'section.environment.items()':
+            body = [x for x in st.body if not isinstance(x, ast.Pass)]
+            if len(body) != 1 or ast.unparse(body[0]).replace(' ', '').replace('"', "'") != "self.environ_expansions['ENV_%s'%k]=v" \
+                    or ast.unparse(st.target).replace(' ', '') not in ('(k,v)', 'k,v'):
+                raise ValueError('read_config: the loop that adds the [supervisord] environment to the ENV_ expansions is not understood: '
+                                 + ast.unparse(st)[:120])
+            if merge is not None:
+                raise ValueError('read_config: two loops over section.environment.items()')
+            merge = i
+        if isinstance(st, ast.Assign) and len(st.targets) == 1:
+            t, v = ast.unparse(st.targets[0]), ast.unparse(st.value)
+            if t == 'section.process_group_configs':
+                if v != 'self.process_groups_from_parser(parser)' or groups is not None:
+                    raise ValueError('read_config: %s = %s: not understood' % (t, v))
+                groups = i
+            if t == 'section.server_configs':
+                if v != 'self.server_configs_from_parser(parser)' or servers is not None:
+                    raise ValueError('read_config: %s = %s: not understood' % (t, v))
+                servers = i
+    if merge is None or groups is None or servers is None:
+        raise ValueError('read_config: %s not found among the top-level statements' % ', '.join(
+            n for n, x in (('the ENV_ merge loop', merge), ('section.process_group_configs = ...', groups),
+                           ('section.server_configs = ...', servers)) if x is None))
+    return dict(shares=shares, groups_after=groups > merge, servers_after=servers > merge)
 
 
 # ---- placement of the statements that bind / update the expansion dictionary of the numprocs loop ----------
@@ -491,6 +586,17 @@ def TABLES():
     L.append("/-- read_config: every process configuration gets a dictionary of its own (`env = section.environment.copy()`) when the")
     L.append("    [supervisord] environment is overlaid with the program's -/")
     L.append('def rcEnvCopied : Bool := %s' % ('true' if env_merge_loop()['copied'] else 'false'))
+    rc = read_config_environ()
+    L.append('/-- read_config: `parser.expansions = self.environ_expansions` -- the parser expands with the options\' OWN dictionary (not a')
+    L.append('    snapshot), so the ENV_ names read_config adds from the [supervisord] environment are visible to every parser.saneget -/')
+    L.append('def rcParserSharesEnviron : Bool := %s' % ('true' if rc['shares'] else 'false'))
+    L.append('/-- read_config: the program/group/eventlistener/fcgi sections are parsed AFTER the [supervisord] environment was added -/')
+    L.append('def rcGroupsAfterEnvMerge : Bool := %s' % ('true' if rc['groups_after'] else 'false'))
+    L.append('/-- read_config: the [unix_http_server]/[inet_http_server] sections are parsed AFTER the [supervisord] environment was added -/')
+    L.append('def rcServersAfterEnvMerge : Bool := %s' % ('true' if rc['servers_after'] else 'false'))
+    L.append("/-- lookups written `get(...) or '<text>'`: (scope, option, text that replaces a present-but-empty value) -/")
+    L.append('def optEmptyFallback : List (String × String × String) := [%s]' % ', '.join(
+        '(%s, %s, %s)' % (lean_str(a), lean_str(b), lean_str(c)) for a, b, c in fallback_rows()))
     L.append('/-- read_include_config: the directory parser.expand_here() is given after reading one matched file -/')
     L.append('def includeHereSrc : HereSrc := .%s' % include_here())
     return L
